@@ -1,4 +1,5 @@
 import Operon.Lemmas.C14
+import Operon.Lemmas.C14Tr
 /-!
 # C14 — coordinated operations release every resource on every exit path
 
@@ -204,6 +205,50 @@ theorem c14_cell_no_leak_on_any_exit (s : Sys) (op : Nat) (prio : Int) (req : Li
   rw [hsys]
   exact ⟨rfl, c14_no_leak_on_any_exit s op prio req adv hown⟩
 
+/-! ### The model is what the source says: agreement with the translation of the Python methods
+
+`Operon/Gen/CoordTranslated.lean` is regenerated on every run from `operon_ai/coordination/types.py` and
+`controller.py` by `harness/vf/extract/py2lean_coord.py` (typed, fail-closed: a method that leaves the supported
+subset becomes `untranslatable "…"` and its theorem below stops checking).  Each theorem states that the translated
+method IS the hand-written model function the theorems above are about — full equality of the resulting lock /
+graph / system / context and of the returned value.  Hypotheses, where present, are the two facts a Python dict and a
+shared object give for free and an association list / a copied record do not: `edges` has one entry per waiter
+(`Nodup` keys; an invariant of every history, `Good.keys`), and the context passed in is the object listed in
+`active_operations` (`Synced`). -/
+
+theorem c14_translation_agrees_add_to_waiting (l : Lock) (o : Nat) (p : Int) :
+    Tr.add_to_waiting l o p = { l with waiting := addWaiting l.waiting o p } := tr_add_to_waiting l o p
+
+theorem c14_translation_agrees_try_acquire (l : Lock) (o : Nat) (p : Int) :
+    Tr.try_acquire l o p = l.tryAcquire o p := tr_try_acquire l o p
+
+theorem c14_translation_agrees_release (l : Lock) (o : Nat) : Tr.release l o = l.release o := tr_release l o
+
+theorem c14_translation_agrees_pop_next_waiter (l : Lock) : Tr.pop_next_waiter l = l.popNext :=
+  tr_pop_next_waiter l
+
+theorem c14_translation_agrees_add_dependency (E : Edges) (hkeys : (E.map (·.1)).Nodup) (w b r : Nat) :
+    Tr.add_dependency E w b r = addDep E w b r := tr_add_dependency E hkeys w b r
+
+theorem c14_translation_agrees_remove_dependency (E : Edges) (hkeys : (E.map (·.1)).Nodup) (w b : Nat) :
+    Tr.remove_dependency E w b = removeDep E w b := tr_remove_dependency E hkeys w b
+
+theorem c14_translation_agrees_remove_all_for_agent (E : Edges) (hkeys : (E.map (·.1)).Nodup) (a : Nat) :
+    Tr.remove_all_for_agent E a = removeAllFor E a := tr_remove_all_for_agent E hkeys a
+
+theorem c14_translation_agrees_acquire_resource (s : Sys) (c : Ctx) (r : Nat) (hkeys : (s.edges.map (·.1)).Nodup) :
+    Tr.acquire_resource s c r = acquire s c r := tr_acquire_resource s c r hkeys
+
+theorem c14_translation_agrees_release_resource (s : Sys) (c : Ctx) (r : Nat) (hkeys : (s.edges.map (·.1)).Nodup)
+    (hshared : Synced s c) : Tr.release_resource s c r = release s c r := tr_release_resource s c r hkeys hshared
+
+theorem c14_translation_agrees_release_all_resources (s : Sys) (c : Ctx) (hkeys : (s.edges.map (·.1)).Nodup)
+    (hshared : Synced s c) : Tr.release_all_resources s c = releaseAll s c :=
+  tr_release_all_resources s c hkeys hshared
+
+theorem c14_translation_agrees_forget_operation (s : Sys) (o : Nat) (hkeys : (s.edges.map (·.1)).Nodup) :
+    Tr.forget_operation s o = forgetWaiter s o := tr_forget_operation s o hkeys
+
 /-! ### Non-vacuity: concrete systems meeting the hypotheses -/
 
 private def s0 : Sys := (({} : Sys).register 1 false).register 2 true
@@ -241,5 +286,19 @@ example : (cellExecute s0 1 3 [1] advOk .ok).success = true ∧ (cellExecute s0 
     (cellExecute s0 1 3 [1] advOk .raise).success = false ∧
     (cellExecute s0 1 3 [1] advOk .raise).blockedByCoordination = false ∧
     (cellExecute s0 1 3 [1] advOk .raise).coord.success = true := by decide
+
+/-- the hypotheses of the agreement theorems are satisfiable on a non-trivial state: op 7 holds r2 and is the listed
+    context, op 1 is blocked on it (one edge, distinct keys) -/
+example : ∃ s : Sys, ∃ c : Ctx, (s.edges.map (·.1)).Nodup ∧ Synced s c ∧ s.edges = [(1, [(7, 2)])] ∧ c.id = 7 ∧
+    c.acquired = [2] := by
+  refine ⟨(acquire (s1.start 1 0).1 (s1.start 1 0).2 2).1, (s1.ctx? 7).getD { id := 0, prio := 0 }, by decide, ?_,
+    by decide, by decide, by decide⟩
+  intro x hx hid
+  have : (acquire (s1.start 1 0).1 (s1.start 1 0).2 2).1.active =
+      [(s1.ctx? 7).getD { id := 0, prio := 0 }, (s1.start 1 0).2] := by decide
+  rw [this] at hx
+  rcases List.mem_cons.mp hx with rfl | hx'
+  · rfl
+  · simp at hx'; subst hx'; revert hid; decide
 
 end Operon.Coord
